@@ -145,6 +145,30 @@ func lexCase(c *explore.Ctx, s *explore.SubStats, text string, conformance, posi
 			Expected: lexShapeFull(m), Observed: implShape(im)})
 		return
 	}
+	if positions && im.Failed && m.FailAt >= 0 && im.ErrLine != 0 {
+		// the location of a lexical error: the start of the token that cannot be completed, or the
+		// character that rules it out (both are "where the grammar admits no token")
+		okPos := false
+		cands := []int{m.FailPos, m.FailChar}
+		// … or an escape sequence inside that token (its backslash or the character after it): the
+		// lexer blames the last escape when the input ends within five characters of it
+		rs := []rune(text)
+		for o := m.FailPos; o <= m.FailChar && o < len(rs); o++ {
+			if rs[o] == '\\' {
+				cands = append(cands, o, o+1)
+			}
+		}
+		for _, o := range cands {
+			if o >= 0 && o < len(m.LineOf) && m.LineOf[o] == im.ErrLine && m.ColOf[o] == im.ErrCol {
+				okPos = true
+			}
+		}
+		if !okPos {
+			c.Report(s, explore.Violation{Key: "pos/lex-error msg=" + msgTemplate(im.ErrMsg, map[string]bool{}), Input: explore.J(lexInput{text}), Rendered: text,
+				Detail: fmt.Sprintf("lexical error %q reported at %d:%d; the token that cannot be completed starts at %d:%d and the character that rules it out is at %d:%d", im.ErrMsg, im.ErrLine, im.ErrCol,
+					m.LineOf[m.FailPos], m.ColOf[m.FailPos], m.LineOf[m.FailChar], m.ColOf[m.FailChar])})
+		}
+	}
 	if positions {
 		seen := map[string]bool{}
 		for _, p := range poss {
